@@ -25,6 +25,7 @@ def run(ctx):
         ctx.guarded("R-C18-branch", branch, ctx, prog, ver)
         ctx.guarded("R-C18-connect-timeout", connect_timeout, ctx, prog, ver)
         ctx.guarded("R-C18-interval", interval, ctx, prog, ver)
+        ctx.guarded("R-C18-branch", flush_bounded, ctx, prog, ver)
 
 
 def flag(ctx, prog, ver):
@@ -219,3 +220,35 @@ def interval(ctx, prog, ver):
                           site=body.loc(st.get("sp")))
     if ver == "v5":
         ctx.floor(rule, "event-loop writes of options.keep_alive (v5)", n, 1)
+
+
+def flush_bounded(ctx, prog, ver):
+    """'reports the connection as failed no later than ...': while the body of a select! arm is awaited the other arms
+    (the keep-alive tick among them) are not polled. An unbounded `network.flush().await` in an arm body therefore
+    switches the keep-alive off for as long as the broker does not read: every flush in select() must be bounded by
+    tokio::time::timeout (sibling agreement: the 3.1.1 event loop bounds all three)."""
+    rule = "R-C18-branch"
+    pre = dict((v[0], v[2]) for v in VERSIONS)[ver]
+    body = prog.one("^" + re.escape(pre) + r"select::\{closure#0\}$")
+    flushes = [(bb, t) for bb, t in body.calls() if callee_path(t).endswith("framed::Network::flush") and not body.is_cleanup(bb)]
+    ctx.floor(rule, "network.flush() calls in select() (%s)" % ver, len(flushes), 3)
+    touts = [(bb, t) for bb, t in body.calls() if re.search(r"tokio::time::timeout$", callee_path(t)) and not body.is_cleanup(bb)]
+    for bb, t in flushes:
+        fut = t["dest"]["l"]
+        bounded = False
+        for b2, t2 in touts:
+            for a in t2["args"]:
+                l = op_local(a)
+                hops = 0
+                while l is not None and l != fut and hops < 3:
+                    d = single_def(body, l)
+                    l = op_local(d[3]["rv"]["a"]) if d and d[2] == "assign" and d[3]["rv"]["k"] == "use" else None
+                    hops += 1
+                if l == fut:
+                    bounded = True
+        if bounded:
+            ctx.ok(rule, body.id, "flush is awaited under tokio::time::timeout", site=body.loc(t.get("sp")))
+        else:
+            ctx.violation(rule, body.id, "flush awaited without a timeout",
+                          "select() (%s) awaits network.flush() without a bound: if the broker stops reading (its window closes, the connection stays open) the flush pends for ever, the keep-alive arm is never polled again, no PINGREQ is sent and the dead connection is never reported" % ver,
+                          site=body.loc(t.get("sp")))
